@@ -39,9 +39,14 @@ def obligations(tier):
                   bounds="6 representative stamps (incl. several days) x 8 offsets x float/timedelta form: exact timedelta addition"))
     obs.append(Ob("C12.witness_replay", "PY", "vf.fk_witness", "check", 300,
                   funcs=("chartparse.sync.SyncTrack.from_chart_lines", "chartparse.sync.BPMEvents.timestamp_at_tick_no_optimize_return", "chartparse.tick.seconds_from_ticks_at_bpm (real arithmetic)", "chartparse.time.add"),
-                  bounds="z3 generates 70 integer witnesses in 14 rare regions (sub-microsecond ticks before a tempo change, long runs of them, a tempo change more than a day into the chart, "
-                         "exact half-microsecond offsets, tempo ratios of 10^9); each is replayed through the real parser and query (native floats) and judged against exact rationals: "
-                         "|time-exact| <= 0.501 us per segment, tick 0 = 0, non-decreasing, strictly increasing where every tick lasts >= 2 us, stored tempo times = queried times"))
+                  bounds="z3 generates 80 integer witnesses in 16 rare regions (sub-microsecond ticks before a tempo change, long runs of them, a tempo change more than a day into the chart, "
+                         "exact half-microsecond offsets, tempo ratios of 10^9, the tempo in force restated off the microsecond grid); each is replayed through the real parser and query (native floats) "
+                         "as a tempo map and as a whole chart with events of every kind in two tracks, and a third of them again under a changed thread-local decimal context; judged against exact rationals: "
+                         "|time-exact| <= 0.501 us per segment, tick 0 = 0, non-decreasing, strictly increasing where every tick lasts >= 2 us, every stored time = the un-hinted query of its tick"))
+    obs.append(Ob("C12.long_history", "CH", "harness.h_hist", "long_history", 1200,
+                  funcs=("chartparse.chart.Chart.from_file (whole pipeline, native execution)",),
+                  bounds="30/120/400 parses in one fresh interpreter alternating two of four texts that share every tick but differ in tempo map / resolution, "
+                         "each chart dropped at once (freed objects, recycled addresses): every parse identical to the first parse of its text"))
     return obs
 
 
@@ -52,6 +57,6 @@ LEVEL_NOTE = "Trusted: E1 (monotone microsecond conversion), E3, S1-S5. Strictne
 TECHNIQUE = "z3 lemmas on the live kernel AST + CrossHair symbolic execution of builder/lookup over a monotone uninterpreted clock + z3-generated boundary witnesses replayed through the real query"
 ENGINE = "FK+CH"
 EXPLANATION = "K2/K3/G3/G4 + monotone_pair harness; see obligation_table"
-BOUNDS = "numeric ranges of C01; K<=3/4 tempo events in CH; 70 boundary witnesses in 14 regions"
+BOUNDS = "numeric ranges of C01; K<=3/4 tempo events in CH; 80 boundary witnesses in 16 regions"
 OUTSIDE = "as C01"
 ASSUMPTIONS = [S1, S3, S4, E1, E3]
